@@ -7,7 +7,8 @@ cd "$root"
 RW=net/queue/queue.go,net/packet/packet.go,nbt/typeinfo.go,server/playerlist.go,server/login.go,bot/client.go
 ADD=bot/zz_verif_c19.go=checks/c19/ovl/bot_verif.go
 mkdir -p "$work/ctl" "$work/free"
-go run ./tools/overlaygen -work "$work/ctl" -mode controlled -rewrite "$RW" -add "$ADD" || { echo "HARNESS-ERROR: overlay generation failed" >&2; exit 2; }
+RWDIRS=net,net/queue,net/packet,nbt,bot,server,chat
+go run ./tools/overlaygen -work "$work/ctl" -mode controlled -rewrite "$RW" -rewrite-dirs "$RWDIRS" -add "$ADD" || { echo "HARNESS-ERROR: overlay generation failed" >&2; exit 2; }
 go run ./tools/overlaygen -work "$work/free" -mode free -add "$ADD" || { echo "HARNESS-ERROR: overlay generation failed" >&2; exit 2; }
 go build $VERIF_MODFLAG -tags verif,verifctl -overlay "$work/ctl/overlay.json" -o "$work/h_ctl" ./checks/c19 2> "$work/build.log" || { cat "$work/build.log" >&2; echo "HARNESS-ERROR: build failed" >&2; exit 2; }
 racefile="$work/race.json"
